@@ -106,14 +106,15 @@ func (c09Common) Async() bool { return false }
 // BaseStream.DestroyStream -> listener.OnDestroyStream -> client.ActiveRequestsNum ->
 // streamConn.ActiveStreamsNum (sc.clientMutex.RLock of the SAME streamConn: the stream's listener
 // is the active client of the connection being reset): the goroutine waits for itself.
-func (c09Common) SelfDeadlock(stack string) string {
+func (c09Common) SelfDeadlock(stack string) (class, detail string) {
 	i := strings.Index(stack, "(*streamConn).ActiveStreamsNum")
 	j := strings.Index(stack, "(*streamConn).Reset(")
 	k := strings.Index(stack, "OnDestroyStream")
 	if i >= 0 && j > i && k > i && k < j {
-		return "I5 self-deadlock: closing a connection whose client is in state GoAway while it carries streams blocks for ever (streamConn.Reset holds clientMutex, OnDestroyStream -> ActiveRequestsNum read-locks it again): the streams are never destroyed"
+		return "I5 self-deadlock when a go-away connection that still carries streams is closed (streams never destroyed)",
+			"streamConn.Reset holds sc.clientMutex while it resets the streams; activeClientMultiplex.OnDestroyStream, seeing state GoAway, calls codecClient.ActiveRequestsNum -> streamConn.ActiveStreamsNum, which read-locks the same mutex: the closing goroutine waits for itself, no stream of the connection is ever destroyed, Requests / upstream_request_active are never released"
 	}
-	return ""
+	return "", ""
 }
 
 func (c09Common) NewCtx() context.Context {
